@@ -11,6 +11,8 @@ import (
 	"sort"
 	"strconv"
 	"strings"
+	"unicode"
+	"unicode/utf8"
 
 	"golang.org/x/mod/module"
 )
@@ -160,9 +162,18 @@ func ParseDirective(line string) (args string, ok bool) {
 
 func SplitArgs(s string) ([]string, error) {
 	var out []string
+	// spaceAt returns the width of the white space rune at s[i:], or 0.
+	// Arguments are separated by unicode.IsSpace runes, as in go/build.
+	spaceAt := func(i int) int {
+		r, n := utf8.DecodeRuneInString(s[i:])
+		if unicode.IsSpace(r) {
+			return n
+		}
+		return 0
+	}
 	for i := 0; i < len(s); {
-		for i < len(s) && (s[i] == ' ' || s[i] == '\t') {
-			i++
+		for i < len(s) && spaceAt(i) > 0 {
+			i += spaceAt(i)
 		}
 		if i >= len(s) {
 			break
@@ -184,13 +195,14 @@ func SplitArgs(s string) ([]string, error) {
 				}
 				i++
 			}
-			if !closed {
+			// a quoted argument ends at white space or at the end of the line
+			if !closed || (i < len(s) && spaceAt(i) == 0) {
 				return nil, fmt.Errorf("invalid //go:embed quoted pattern")
 			}
 			out = append(out, s[start:i])
 			continue
 		}
-		for i < len(s) && s[i] != ' ' && s[i] != '\t' {
+		for i < len(s) && spaceAt(i) == 0 {
 			i++
 		}
 		out = append(out, s[start:i])
